@@ -60,6 +60,7 @@ def shards(tier, seed):
         out.append({"kind": "dec_random", "n": 200000})
         out.append({"kind": "contracts", "n": 40000})
         out.append({"kind": "polluted", "hi": B2 + 500})
+        out.append({"kind": "shuffled", "n": 60000})
     else:
         step = B3 // 64 + 1
         for lo in range(0, B3 + 1, step):
@@ -76,6 +77,7 @@ def shards(tier, seed):
             out.append({"kind": "dec_random", "n": 500000, "part": p})
         out.append({"kind": "contracts", "n": 400000})
         out.append({"kind": "polluted", "hi": B3 // 8})
+        out += [{"kind": "shuffled", "n": 600000, "part": p} for p in range(4)]
         if full:
             step = (B4 - B3) // 1024 + 1
             for lo in range(B3, B4, step):
@@ -284,6 +286,25 @@ def run(shard, rec, tier, seed):
         rec.sample({"decode_random": [x.hex() for x in sorted(seen)[:3]]})
     elif kind == "contracts":
         run_contracts(ns, rec, shard, seed)
+    elif kind == "shuffled":
+        # the same values again and again, in no particular order, encode and decode interleaved, decode
+        # inputs that differ only in length / trailing bytes: hidden memo tables keyed too coarsely show here
+        rng = random.Random("C07-shuf-%d-%d" % (seed, shard.get("part", 0)))
+        pool = [rng.choice([rng.randrange(B4), rng.randrange(B2), rng.randrange(B), rng.randrange(B) * rng.choice([B, B2, B3])]) for _ in range(2000)]
+        bpool = []
+        for _ in range(1500):
+            b = bytes(rng.choice([rng.randrange(256), 0, 1, 254, 255]) for _ in range(rng.randrange(0, 6)))
+            bpool += [b, b + b"\x00", b + b"\xfe", b[:-1], b + b"\x00\x00", b"\x00" + b]
+        for _ in range(shard["n"]):
+            if rng.random() < 0.5:
+                mon.check_n(rng.choice(pool))
+            else:
+                mon.check_b(rng.choice(bpool))
+        rec.case(None, n=0, nontrivial=False)
+        rec.evals += shard["n"]
+        rec.count("roundtrip", shard["n"] // 2)
+        rec.count("decode-formula", shard["n"] // 2)
+        rec.count("repeated-shuffled-calls", shard["n"])
     elif kind == "polluted":
         # hostile history: out-of-domain calls first (a codec with hidden shared state - caches, tables -
         # must not let them change what in-range numbers encode to afterwards), then the in-range sweep
